@@ -235,9 +235,21 @@ def bi_enumerate(e, st, args, kw, node):
     return st, VEnumerate(args[0], start)
 
 
+@dataclass(frozen=True)
+class VZipStar(V):
+    """zip(*rows) over a list of k-tuples: yields k sequences if the list is non-empty, NOTHING if it is empty"""
+    rows: VList
+
+
 def bi_zip(e, st, args, kw, node):
     if '*' in kw:
-        raise Unsupported("zip(*iterables) needs a contract at the call site")
+        if args:
+            raise Unsupported("zip(x, *rest)")
+        st, l = _materialize(e, st, kw['*'])
+        if not isinstance(l.elem, TUPLE):
+            raise Unsupported("zip(*rows) over rows that are not tuples")
+        e.assumptions.add('zip(*rows): transposition of a list of equal-length tuples; yields nothing for an empty list')
+        return st, VZipStar(l)
     return st, VZip(tuple(args))
 
 
@@ -609,3 +621,35 @@ def bi_str_join(e, st, args, kw, node):
     # a join whose first element is a non-empty string is non-empty
     st.assume(z3.Implies(z3.And(l.n >= 1, z3.Select(l.arrs[0], l.off) != e.str_const('').t), r.t != e.str_const('').t))
     return st, r
+
+
+def bi_itertools_chain_from_iterable(e, st, args, kw, node):
+    """chain.from_iterable(xs): concatenation of the iterables; modelled as a list of the common element kind whose
+    length and contents are otherwise unconstrained here (callers needing more use a contract)"""
+    from .symex2 import VGen
+    src = args[0]
+    e.assumptions.add('itertools.chain.from_iterable: yields elements of the inner iterables (only the element type is used)')
+    if isinstance(src, VGen):
+        g = src.node.generators[0]
+        saved = st.cur
+        st.cur = src.fid
+        st2, outer = e.ev1(g.iter, st)
+        it = e.iterable(st2, outer)
+        k = z3.Int(fresh_name('cf'))
+        sc = st2.fork()
+        sc.assume(0 <= k, k < it.n)
+        e.qvars.append(k)
+        try:
+            e.bind_target(sc, g.target, it.at(k))
+            sc, inner = e.ev1(src.node.elt, sc)
+        finally:
+            e.qvars.pop()
+        st.cur = saved
+        inner = sc.lst(inner)
+        r = e.fresh_list(inner.elem, 'chained')
+        st.assume(*e.wf(r, st))
+        return st, st.new_list(r)
+    raise Unsupported("chain.from_iterable over this argument")
+
+
+bi_chain_from_iterable = bi_itertools_chain_from_iterable
